@@ -222,8 +222,8 @@ func verifyUnit(w *World, u *Unit, opt Options) *UnitResult {
 		}
 		q := ex.header() + ex.prefix(len(ex.items)) + "(assert " + or(ex.returnReach...) + ")\n"
 		r := solveCover(q, sanitize(u.Name)+".vac", 3000)
-		if r.Status != "sat" && r.Status != "unsat" {
-			// no model found quickly (quantified assumptions): give the solvers the time an obligation gets to find a
+		if r.Status != "sat" && r.Status != "unsat" && opt.Thorough {
+			// thorough tier — no model found quickly (quantified assumptions): give the solvers the time an obligation gets to find a
 			// contradiction among the assumptions, which is what a vacuous unit would be
 			r = solveCover(q, sanitize(u.Name)+".vac2", 15000)
 		}
